@@ -179,6 +179,81 @@ class Gen:
         k = self.k() if k is None else k
         return "raw-basis", (self.denom(k)[1], self.mat_full(k))
 
+    # ---- bases whose content is carried by PART of the entries (a content routine that scans only some entries,
+    # e.g. only the upper triangle "because bases are HNF", over-estimates the gcd exactly on these)
+    PATTERNS = ["all-but-one", "all-but-one", "all-but-one", "upper-tri", "upper-tri", "strict-upper+diag-but-one",
+                "lower-tri", "diag-only", "one-row", "one-col", "first-row-only", "all"]
+
+    def partial_content_mat(self, k):
+        """-> (pattern, q, full-rank matrix): the entries in the pattern set are multiples of q, every other entry is
+        NOT a multiple of q (so the true content is coprime to q unless the pattern is `all`)"""
+        pat = self.r.choice(self.PATTERNS)
+        q = self.r.choice([2, 3, 5, 7, 2**32, 2**61 - 1, 3 * 2**40, self.pos(self.k(64)) + 1])
+        pos = [(i, j) for i in range(4) for j in range(4)]
+        if pat == "all-but-one":
+            S = set(pos) - {self.r.choice(pos)}
+        elif pat == "upper-tri":
+            S = {(i, j) for (i, j) in pos if j >= i}
+        elif pat == "strict-upper+diag-but-one":
+            S = {(i, j) for (i, j) in pos if j >= i} - {(self.r.below(4),) * 2}
+        elif pat == "lower-tri":
+            S = {(i, j) for (i, j) in pos if j <= i}
+        elif pat == "diag-only":
+            S = {(i, i) for i in range(4)}
+        elif pat == "one-row":
+            t = self.r.below(4); S = {(t, j) for j in range(4)}
+        elif pat == "one-col":
+            t = self.r.below(4); S = {(i, t) for i in range(4)}
+        elif pat == "first-row-only":
+            S = {(0, j) for j in range(4)}
+        else:
+            S = set(pos)
+        for _ in range(200):
+            m = [[0] * 4 for _ in range(4)]
+            for (i, j) in pos:
+                if (i, j) in S:
+                    m[i][j] = q * (self.rint(k) if self.r.below(6) else self.nz(k))
+                else:
+                    v = self.nz(k)
+                    while v % q == 0:
+                        v += 1
+                    m[i][j] = v
+            if O.det4(m) != 0:
+                return pat, q, m
+        return "all", q, [[q * x for x in r] for r in self.mat_full(k)]
+
+    def lat_partial_content(self, k=None):
+        """lattice whose denominator shares the factor q with the pattern entries only"""
+        k = self.k(256) if k is None else k
+        pat, q, m = self.partial_content_mat(k)
+        d = q * self.r.choice([1, 1, -1, 2, 3, q, self.pos(self.k(32))])
+        return "partial-content:" + pat, (d, m)
+
+    def lat_mulmat(self):
+        """the full (non-triangular) matrix mulmat(x)·B with denominator x.denom·d that `quat_lideal_create_principal`
+        hands to reduce_denom BEFORE the HNF, for x whose numerator has the shape (p·a, p·b, c, d) / (p·e): the upper
+        triangle of mulmat(x) is then divisible by p, the lower one is not"""
+        p = self.prime()
+        kk = self.k(64)
+        shape = self.r.choice(["p-upper", "p-upper", "q-upper", "generic"])
+        e = self.r.choice([1, 1, -1, 2, self.pos(8)])
+        if shape == "p-upper":
+            x = (p * e, [p * self.nz(kk), p * self.rint(kk), self.nz(kk), self.nz(kk)])
+        elif shape == "q-upper":
+            q = self.r.choice([2, 3, 5, 7])
+            x = (q * e, [q * self.nz(kk), q * self.rint(kk), q * self.rint(kk) + 0, q * self.rint(kk)])
+            x = (x[0], [x[1][0], x[1][1], x[1][2], x[1][3]])
+        else:
+            x = self.elem(kk)[1]
+        xd, c = x
+        M = [[c[0], -c[1], -p * c[2], -p * c[3]], [c[1], c[0], p * c[3], -p * c[2]], [c[2], -c[3], c[0], -c[1]], [c[3], c[2], c[1], c[0]]]
+        osel = self.r.choice(["Z<1,i,j,k>", "Z<1,i,j,k>", "O0", "hnf"])
+        Ol = (1, ID4) if osel.startswith("Z") else O0 if osel == "O0" else (self.denom(8)[1], self.hnf_direct(self.k(16)))
+        B = O.matmul(M, Ol[1])
+        if O.det4(B) == 0:
+            return self.lat_partial_content()
+        return "mulmat(x)*O:" + shape + ":" + osel + ":" + pname(p), (xd * Ol[0], B)
+
     def small_hnf_with_det(self, primes):
         """HNF integer matrix whose determinant is a product of the given primes (index of a sublattice)"""
         m = [[0] * 4 for _ in range(4)]
@@ -368,6 +443,25 @@ class Gen:
             elif sel == "identity":
                 m = [r[:] for r in ID4]
             self.emit("mat", "m.ishnf", sel + ":" + kb(k), fm(m))
+            # content of arbitrary matrices (ibz_mat_4x4_gcd = gcd of ALL 16 entries)
+            for _rep in range(2):
+                kk = self.k(256)
+                sel = self.r.choice(["partial", "partial", "partial", "random", "hnf-with-content", "zero-first-entry", "zero"])
+                if sel == "partial":
+                    pat, q, m = self.partial_content_mat(kk)
+                    sel = "partial-content:" + pat
+                elif sel == "random":
+                    m = self.mat_raw(kk, self.r.below(3) == 0)
+                elif sel == "hnf-with-content":
+                    c = self.pos(self.k(64))
+                    m = [[c * x for x in r] for r in self.hnf_direct(kk)]
+                elif sel == "zero-first-entry":
+                    m = self.mat_raw(kk); m[0][0] = 0
+                else:
+                    m = [[0] * 4 for _ in range(4)]
+                    if self.r.below(2):
+                        m[self.r.below(4)][self.r.below(4)] = self.rint(kk)
+                self.emit("mat", "m.gcd", sel + ":" + kb(kk), fm(m))
 
     def gen_hnf(self, n):
         for _ in range(n):
@@ -448,6 +542,11 @@ class Gen:
                 g = self.nz(self.k(128))
                 l, c = (l[0] * g, [[x * g for x in r] for r in l[1]]), c + "+common-factor"
             self.emit("lat", "l.reduce", c + (":d<0" if l[0] < 0 else ":d>0"), fl(l))
+            # non-triangular bases whose content sits in part of the entries / bases of principal lattices before the HNF
+            for c, l in (self.lat_partial_content(), self.lat_mulmat()):
+                self.emit("lat", "l.reduce", c + (":d<0" if l[0] < 0 else ":d>0"), fl(l))
+            c, l = self.lat_partial_content() if self.r.below(2) else self.lat_mulmat()
+            self.emit("lat", "l.hnf", c + (":d<0" if l[0] < 0 else ":d>0"), fl(l))
             c, l = self.lat_raw() if self.r.below(2) else self.lat_hnf()
             self.emit("lat", "l.dual", c + (":d<0" if l[0] < 0 else ":d>0"), fl(l))
             # equality (HNF operands)
@@ -696,7 +795,7 @@ def minimal_bad(exe, bads):
 CFUNC = {"q.xgcd": "ibz_xgcd", "q.rdiv": "ibz_rounded_div", "q.add": "quat_alg_add", "q.sub": "quat_alg_sub", "q.mul": "quat_alg_mul",
          "q.conj": "quat_alg_conj", "q.normalize": "quat_alg_normalize", "q.eqden": "quat_alg_equal_denom", "q.norm": "quat_alg_norm",
          "q.trace": "quat_alg_trace", "q.rmat": "quat_alg_rightmul_mat", "q.o0basis": "from_1ijk_to_O0basis", "m.mul": "ibz_mat_4x4_mul",
-         "m.inv": "ibz_mat_4x4_inv_with_det_as_denom", "m.eval": "ibz_mat_4x4_eval", "m.qf": "quat_qf_eval", "m.ishnf": "ibz_mat_4x4_is_hnf",
+         "m.inv": "ibz_mat_4x4_inv_with_det_as_denom", "m.eval": "ibz_mat_4x4_eval", "m.qf": "quat_qf_eval", "m.ishnf": "ibz_mat_4x4_is_hnf", "m.gcd": "ibz_mat_4x4_gcd",
          "h.core": "ibz_mat_4x8_hnf_core", "h.mod": "ibz_mat_4x4_hnf_mod", "l.add": "quat_lattice_add", "l.inter": "quat_lattice_intersect",
          "l.mul": "quat_lattice_mul", "l.hnf": "quat_lattice_hnf", "l.reduce": "quat_lattice_reduce_denom", "l.dual": "quat_lattice_dual_without_hnf",
          "l.equal": "quat_lattice_equal", "l.contains": "quat_lattice_contains", "l.index": "quat_lattice_index"}
